@@ -1,0 +1,15 @@
+//go:build verif
+
+// Contracts for package service, read by /verif/govc. Comment-only; never compiled into the library.
+package service
+
+// A message produced by newTerminalMessage wraps a decoded JTMessage.
+//@ valid *Message m: m != nil && m.JTMessage != nil && m.JTMessage.Header != nil && m.JTMessage.Header.Property != nil
+
+// Representation invariant of the sub-package table (newPackageParse establishes it, add/remove keep it):
+// both maps exist and have the same keys; a record has as many slots as the first packet announced.
+//@ spec wf(p *packageParse) bool = p.subcontractingRecord != nil && p.timeoutRecord != nil && forallb(k, 16, iff(has(p.subcontractingRecord, k), has(p.timeoutRecord, k)) && (has(p.timeoutRecord, k) ==> p.timeoutRecord[k] != nil && p.timeoutRecord[k].initHeader != nil && p.timeoutRecord[k].initHeader.Property != nil && len(p.subcontractingRecord[k]) == int(p.timeoutRecord[k].initHeader.SubPackageSum)))
+//@ valid *packageParse p: p != nil && wf(p)
+
+//@ func (*packageParse).completePack
+//@   ensures C05.wf: wf(p)
